@@ -49,7 +49,7 @@ const (
 	zoneD1   = "d1c05."
 	zoneD2   = "d2.c05."
 	zoneD4   = "w.x.d.c05."
-	posTTL = 300
+	posTTL   = 300
 	// fixed absolute signature validity window: deterministic in every world
 	sigInception  = 1767225600 // 2026-01-01
 	sigExpiration = 2082758400 // 2036-01-01
